@@ -454,6 +454,23 @@ theorem answer_follows_first_matching_response_rule (cfg : Cfg) (rs : List SrcRu
   exact ⟨fun h => hact.2.2.1 r h0 ha (hsel.trans h), fun h => hact.2.2.2.1 r h0 ha (hsel.trans h),
     fun k h => hact.2.2.2.2.1 r k h0 ha (hsel.trans h)⟩
 
+/-! ## One question per query (fix C07.fix1) -/
+
+/-- **A query with more than one question is refused**: FORMERR, nobody is asked, nothing is cached or
+evicted — so no question can ride along past the request rules behind another one.  Every other message is
+handled by `handle` on its (first and only) question. -/
+theorem multi_question_query_is_refused (cfg : Cfg) (cache : Cache) (dst : Nat) (nq : Nat) (q? : Option Question)
+    (ans : Upstreams) (h : nq > 1) :
+    let o := handleMsg cfg cache dst false nq q? ans
+    o.reply = .refused ∧ o.trace = [] ∧ o.cache = cache := by
+  simp [handleMsg, h]
+
+theorem single_question_query_is_handled (cfg : Cfg) (cache : Cache) (dst : Nat) (isResp : Bool) (nq : Nat)
+    (q? : Option Question) (ans : Upstreams) (h : nq ≤ 1) :
+    handleMsg cfg cache dst isResp nq q? ans = handle cfg cache dst isResp q? ans := by
+  have : ¬ nq > 1 := by omega
+  simp [handleMsg, this]
+
 /-! ## Question classes (fix 4150de7) -/
 
 /-- Request routing does not look at the class: a CH or ANY question is routed like the IN one. -/
@@ -632,22 +649,13 @@ theorem response_bit_refused (cfg : Cfg) (cache : Cache) (dst : Nat) (q? : Optio
     o.reply = .error .notRequest ∧ o.trace = [] ∧ o.cache = cache := by
   simp [handle]
 
-/-! ## The controller skeleton follows the step order of the source -/
+/-! ## The controller skeleton follows the decisive order of the source -/
 
-/-- **Source-structure guard.** The decision steps of `HandleWithResponseWriter_`,
-`handleWithResponseWriter_`, `dialSend` and `backgroundRefresh`, extracted from the Go source in source
-order on every check run (`Gen/Skeleton.lean`, translator `c07skel`), are exactly the steps — in exactly the
-order — the model skeleton `handle` / `dialSend` / `handleOpt` was written against (`Skeleton.lean`): route
-before everything; the reject test, family removal and empty answer before any cache lookup; resolution under
-the singleflight key `responseCacheKey`; in `dialSend` the depth guard `>=`, forward, question check, response
-routing, accept / reject (empty `Answer`) / re-ask at `nextUpstream` with `invokingDepth+1`, every store under
-`responseCacheKey`; the background refresh re-enters `dialSend` at depth 0 with the routed upstream. -/
-theorem controller_steps_as_modelled :
-    Gen.steps_HandleWithResponseWriter_ = modelled_HandleWithResponseWriter_ ∧
-    Gen.steps_handleWithResponseWriter_ = modelled_handleWithResponseWriter_ ∧
-    Gen.steps_dialSend = modelled_dialSend ∧
-    Gen.steps_backgroundRefresh = modelled_backgroundRefresh := by
-  decide
+/-- **Source-structure guard.** The decisive order facts of `HandleWithResponseWriter_`,
+`handleWithResponseWriter_`, `dialSend` and `backgroundRefresh` (snapshot `Gen/Skeleton.lean` of the go/ast
+translator `c07skel`; recomputed for the tree under test and compared by the check on every run) are the
+facts the model skeleton `handle` / `dialSend` / `handleOpt` relies on (`Skeleton.lean`). -/
+theorem controller_steps_as_modelled : Gen.controllerFacts = modelledFacts := by
+  rfl
 
 end DaeVerif.C07.Props
-
